@@ -4,6 +4,7 @@ import (
 	"fmt"
 	"math/rand"
 	"sort"
+	"sync"
 	"time"
 )
 
@@ -38,7 +39,11 @@ func typeOf(interval int64) string {
 	}
 }
 
-type calendar struct{ loc *time.Location }
+type calendar struct {
+	loc       *time.Location
+	transOnce sync.Once
+	trans     []transitionDay
+}
 
 // bucket is the segment and family a timestamp belongs to according to the calendar.
 type bucket struct {
@@ -73,10 +78,14 @@ func (c *calendar) bucketOf(typ string, ts int64) bucket {
 		b.FamNum = h
 		b.FamStart = ms(time.Date(y, m, d, h, 0, 0, 0, l))
 		b.FamEnd = ms(time.Date(y, m, d, h+1, 0, 0, 0, l)) - 1
-		if _, off := t.Zone(); !(b.FamStart <= ts && ts <= b.FamEnd && b.FamEnd-b.FamStart == msHour-1) && off%3600 == 0 {
-			// a DST shift: a clock hour label repeats or is skipped and time.Date picks one of them;
-			// in whole-hour zones the clock hour of ts is its epoch hour
-			b.FamStart = ts - ts%msHour
+		if b.SegNext-b.SegStart != msDay {
+			// a local day on which the clock is moved (23 h / 25 h): a clock hour label is skipped or repeats, so the
+			// label cannot number the hours.  The property only asks for ranges that contain the timestamp, tile the
+			// axis and are stable inside a family; the hour families of such a day are numbered by elapsed hours
+			// since local midnight (0..22 / 0..24).  That they end exactly on the next local midnight is checked
+			// separately (family-crosses-segment-end) with SegNext, which comes from time.Date.
+			b.FamNum = int((ts - b.SegStart) / msHour)
+			b.FamStart = b.SegStart + int64(b.FamNum)*msHour
 			b.FamEnd = b.FamStart + msHour - 1
 		}
 	case tMonth:
@@ -203,6 +212,68 @@ func (c *calendar) calendarHotspots(rnd *rand.Rand, randomDays int) []int64 {
 	return out
 }
 
+// transitionDay is a local calendar day whose length is not 24 h (the clock is moved on it).
+type transitionDay struct {
+	Start int64 // local midnight
+	Next  int64 // next local midnight
+}
+
+func (t transitionDay) Len() int64 { return t.Next - t.Start }
+
+// transitionDays lists, from time.Date alone, every local day of the window that is not 24 h long.
+func (c *calendar) transitionDays() []transitionDay {
+	var out []transitionDay
+	l := c.loc
+	for y := firstYear; y <= lastYear; y++ {
+		for m := time.January; m <= time.December; m++ {
+			days := time.Date(y, m+1, 0, 0, 0, 0, 0, l).Day()
+			for d := 1; d <= days; d++ {
+				a, b := ms(time.Date(y, m, d, 0, 0, 0, 0, l)), ms(time.Date(y, m, d+1, 0, 0, 0, 0, l))
+				if b-a != msDay {
+					out = append(out, transitionDay{a, b})
+				}
+			}
+		}
+	}
+	return out
+}
+
+// dstSituation names the daylight-saving situation of ts ("" on ordinary days and in zones without transitions):
+//   - "23h-day", "25h-day": ts lies on a local day of that length;
+//   - "25h-day-25th-hour": ts lies 24 h or more after the local midnight of its (25 h) day;
+//   - "first-hour-after-23h-day": ts lies in the first hour of the day following a 23 h day
+//     (a family range computed as start + 24 h would still cover it).
+func (c *calendar) dstSituation(ts int64) string {
+	tr := c.transitions()
+	// first transition day whose Next+1h is after ts
+	i := sort.Search(len(tr), func(i int) bool { return tr[i].Next+msHour > ts })
+	if i == len(tr) || ts < tr[i].Start {
+		return ""
+	}
+	t := tr[i]
+	switch {
+	case ts >= t.Next:
+		if t.Len() < msDay {
+			return "first-hour-after-23h-day"
+		}
+		return ""
+	case t.Len() < msDay:
+		return "23h-day"
+	case ts-t.Start >= msDay:
+		return "25h-day-25th-hour"
+	}
+	return "25h-day"
+}
+
+// transitions caches transitionDays.
+func (c *calendar) transitions() []transitionDay {
+	c.transOnce.Do(func() { c.trans = c.transitionDays() })
+	return c.trans
+}
+
+// hasDST reports whether the zone moves its clock inside the window.
+func (c *calendar) hasDST() bool { return len(c.transitions()) > 0 }
+
 // boundaryKind says how ts relates to the boundaries of its bucket (within 1 s), "" if interior.
 func boundaryKind(b bucket, ts int64) string {
 	switch {
@@ -228,6 +299,7 @@ type childEnv struct {
 	dir    string
 	quick  bool
 	seed   int64
+	light  bool // reduced workload (second daylight-saving zone)
 }
 
 func (e *childEnv) pick(q, t int) int {
